@@ -1936,7 +1936,8 @@ func (ls *LState) Status(th *LState) string {
 		status = "dead"
 	} else if ls.G.CurrentThread == th {
 		status = "running"
-	} else if ls.Parent == th {
+	} else if th.Parent != nil {
+		// resumed and not current: th waits for a coroutine it resumed, directly or not
 		status = "normal"
 	}
 	return status
